@@ -51,6 +51,9 @@ def _subst_closure(e, captures, args):
     return tuple(_subst_closure(x, captures, args) if isinstance(x, tuple) else x for x in e)
 
 
+_INLINING = set()
+
+
 class Algebra:
     def __init__(self, crate, depth=0):
         self.crate = crate
@@ -157,7 +160,43 @@ class Algebra:
                         if _is_agg(v, ERR):
                             out.append((at, v))
                     return out
+            inl = self.inline_private(c, a)
+            if inl is not None:
+                return inl
         return [((), self.rewrite(e))]
+
+    def inline_private(self, name, args):
+        """A call to a private, loop-free helper of the same crate reads as the helper's own case
+        table over the arguments (extracting a function does not change what a caller returns)."""
+        if self.depth >= 3:
+            return None
+        S.accessor_summary(self.crate, name)
+        raws = self.crate["_raw_by_key"].get(name)
+        if not raws or len(raws) != 1:
+            return None
+        raw = raws[0]
+        if raw["kind"] not in ("Fn", "AssocFn") or not str(raw.get("vis", "")).startswith("Restricted") or len(raw["blocks"]) > 40:
+            return None
+        cb = Body(raw, self.crate)
+        if cb.derived or cb.arg_count != len(args):
+            return None
+        if S.PathCond(cb).back_edges():
+            return None
+        key = (id(self.crate), name)
+        if key in _INLINING:
+            return None
+        _INLINING.add(key)
+        try:
+            inner = Algebra(self.crate, self.depth + 1)
+            out = []
+            for conds, v in inner.body_cases(cb):
+                at = tuple((S.subst_params(e, args), val) for e, val in conds)
+                out.append((at, S.subst_params(v, args)))
+            return out or None
+        except RuntimeError:
+            return None
+        finally:
+            _INLINING.discard(key)
 
     def split(self, r, yes, no, test):
         """cases of a Result/Option-valued expression, each a visible constructor"""
